@@ -66,10 +66,10 @@ func isFragile(v interface{}) bool {
 }
 
 type oraclePersist struct {
-	catA       *lungo.Catalog
-	dumpA      string
-	reopens    int
-	ntReopens  int
+	catA      *lungo.Catalog
+	dumpA     string
+	reopens   int
+	ntReopens int
 }
 
 func (o *oraclePersist) before(r *hRun, step bson.D) error {
